@@ -187,3 +187,11 @@ Theorem C10_perp_spacing_end_points : forall (sp dist : list R) si ei, incr sp -
   s_of_sperp Rops sp dist si (nth ei sp 0) = nth ei dist 0 - nth si dist 0.
 Proof. exact s_of_sperp_end_points. Qed.
 Print Assumptions C10_perp_spacing_end_points.
+
+(* ... and is non-decreasing in between (linear interpolation of increasing distances on increasing abscissae) *)
+From HT Require Import Proof_InterpMono.
+Theorem C10_perp_spacing_is_monotone : forall (sp dist : list R) si x y, incr sp -> incr dist -> length dist = length sp -> (2 <= length sp)%nat ->
+  nth 0 sp 0 <= x -> x <= y -> y <= last sp 0 ->
+  s_of_sperp Rops sp dist si x <= s_of_sperp Rops sp dist si y.
+Proof. exact s_of_sperp_monotone. Qed.
+Print Assumptions C10_perp_spacing_is_monotone.
